@@ -245,6 +245,8 @@ func c10Random(r *Rng) C10Case {
 		"D", jobj("type", "object", "properties", jobj("n", jobj("type", "integer", "default", 1.0),
 			"cfg", jobj("type", "object", "default", jobj(), "properties", jobj("b", jobj("type", "string", "default", "x"), "c", jobj("type", "integer", "default", 3.0),
 				"deep", jobj("type", "object", "default", jobj(), "properties", jobj("z", jobj("type", "boolean", "default", true))))))),
+		"M", jobj("type", "object", "properties", jobj("a", jobj("type", "string")),
+			"additionalProperties", jobj("type", "object", "properties", jobj("k", jobj("type", "string"), "zz", jobj("type", "string")))),
 		"RAny", jobj("anyOf", []any{jref("schemas", "RAny"), jobj("type", "string")}),
 		"RAll", jobj("allOf", []any{jobj("type", "string"), jref("schemas", "RAll")}),
 		"ROne", jobj("oneOf", []any{jobj("type", "integer"), jref("schemas", "ROne")})))
@@ -332,7 +334,10 @@ func c10Random(r *Rng) C10Case {
 				content := map[string]any{}
 				for k := 0; k < 1+r.Intn(2); k++ {
 					ct := Pick(r, []string{"application/json", "text/plain", "application/x-www-form-urlencoded", "multipart/form-data", "application/octet-stream", "application/problem+json", "*/*", "text/csv", "application/zip", "application/x-yaml"})
-					mt := jobj("schema", Pick(r, []any{c10Schema(r, 2), jref("schemas", "Rec"), jref("schemas", "D"), jobj("type", "object", "properties", jobj("a", c10Schema(r, 1), "f", jobj("type", "string", "format", "binary")))}))
+					mt := jobj("schema", Pick(r, []any{c10Schema(r, 2), jref("schemas", "Rec"), jref("schemas", "D"), jref("schemas", "M"), jobj("type", "object", "properties", jobj("a", c10Schema(r, 1), "f", jobj("type", "string", "format", "binary")))}))
+					if ct == "multipart/form-data" && r.Chance(50) {
+						mt = jobj("schema", jref("schemas", "M"))
+					}
 					if strings.Contains(ct, "form") && r.Chance(40) {
 						mt["encoding"] = jobj("a", jobj("contentType", Pick(r, []string{"application/json", "text/plain", "bogus"}), "style", "form", "explode", r.Bool()))
 					}
@@ -426,6 +431,12 @@ func c10Random(r *Rng) C10Case {
 			RBody: Pick(r, bodies), Multi: r.Bool(), Strict: r.Chance(40), ExclBody: r.Chance(10), Header: map[string][]string{}, RHeader: map[string][]string{}}
 		if ct := Pick(r, cts); ct != "" {
 			q.Header["Content-Type"] = []string{ct}
+		}
+		if r.Chance(15) {
+			// a well-formed multipart upload (content type and body agree)
+			q.Header["Content-Type"] = []string{"multipart/form-data; boundary=b"}
+			q.Body = Pick(r, []string{"--b\r\nContent-Disposition: form-data; name=\"a\"\r\n\r\n1\r\n--b--\r\n",
+				"--b\r\nContent-Disposition: form-data; name=\"a\"\r\n\r\nx\r\n--b\r\nContent-Disposition: form-data; name=\"k\"\r\n\r\ny\r\n--b--\r\n"})
 		}
 		if ct := Pick(r, cts); ct != "" {
 			q.RHeader["Content-Type"] = []string{ct}
